@@ -14,9 +14,11 @@
 //!   `replay-private-repo-not-in-storage` (residual: the node cannot know), `relay-private-refs`,
 //!   `own-private-refs-announced`, `initial-private-refs`;
 //! * an inventory announcement of the node that lists a private repository:
-//!   `inventory-lists-repo-made-private` (the repository was public earlier in the case: it was made private
-//!   while the node ran; only `initialize` cleans the listing up), `inventory-lists-private-repo` (it was
-//!   never public).
+//!   `inventory-lists-repo-made-private` (the repository was public earlier in the case and was made private
+//!   while the node ran: announcements created before the next `initialize` — also when they are sent or
+//!   replayed later — still list it), `inventory-lists-private-repo` (it was never public, OR the announcement
+//!   was created at or after an `initialize` at which the repository was already private: `initialize` must
+//!   clean the listing up).
 
 #[path = "../../c10/src/engine.rs"]
 mod engine;
@@ -25,11 +27,39 @@ use engine::*;
 use std::collections::BTreeSet;
 use verif_common::*;
 
+fn creates_inventory_and_announces(op: &Op) -> bool {
+    matches!(op, Op::AddInventory(_) | Op::Unseed(_) | Op::Fetched(..))
+}
+
 fn oracle(recs: &[StepRec], tags: &mut Vec<String>) -> Vec<(String, String)> {
     let mut viol: Vec<(String, String)> = vec![];
     // repositories that were public at some earlier point of the case (ground truth of the case text)
     let mut was_public: BTreeSet<u64> = BTreeSet::new();
+    // highest timestamp of an announcement of the node seen (written or stored) before each step
+    let mut max_own_before: Vec<u64> = vec![];
+    let mut max_own = 0u64;
+    // inventory announcements of the node: timestamp -> step at which it was created.
+    // `add_inventory` / `unseed` / a clone create AND store it in the same step; anything first seen otherwise
+    // (on connect, by the announce task, in a replay) is the cached one, created by the latest `initialize`
+    // whose step precedes the observation and after which the timestamp is new (None = initial state).
+    let mut created_at: std::collections::BTreeMap<u64, Option<usize>> = Default::default();
     for (j, r) in recs.iter().enumerate() {
+        max_own_before.push(max_own);
+        let seen_now: Vec<u64> = r.writes.iter().filter(|w| w.ann.node == 0 && w.ann.kind == 'i').map(|w| w.ann.ts)
+            .chain(r.rows.iter().filter(|x| x.node == 0 && x.kind == 'i').map(|x| x.ts)).collect();
+        for ts in seen_now {
+            if !created_at.contains_key(&ts) {
+                let c = if creates_inventory_and_announces(&r.op) {
+                    Some(j)
+                } else {
+                    (0..j).rev().find(|k| matches!(recs[*k].op, Op::Restart) && ts > max_own_before[*k])
+                };
+                created_at.insert(ts, c);
+            }
+        }
+        for ts in r.writes.iter().filter(|w| w.ann.node == 0).map(|w| w.ann.ts).chain(r.rows.iter().filter(|x| x.node == 0).map(|x| x.ts)) {
+            max_own = max_own.max(ts);
+        }
         for (rid, spec) in &r.repos {
             if !spec.private {
                 was_public.insert(*rid);
@@ -72,8 +102,29 @@ fn oracle(recs: &[StepRec], tags: &mut Vec<String>) -> Vec<(String, String)> {
                 for rid in &w.inv {
                     let private = r.repos.get(rid).map(|s| s.private).unwrap_or(false);
                     if private {
-                        let class = if was_public.contains(rid) { "inventory-lists-repo-made-private" } else { "inventory-lists-private-repo" };
-                        viol.push((class.to_string(), format!("op {j}: inventory announcement {} of the node lists private repository {rid}", w.show())));
+                        // Known window: the repository was listed while public and made private while the node
+                        // ran — until the next `initialize`. An inventory announcement created at or after an
+                        // `initialize` at which the repository was already private (and stayed so until the
+                        // announcement was created) must not list it: that is a violation.
+                        let c = created_at.get(&w.ann.ts).cloned().flatten();
+                        let after_restart = c.and_then(|c| {
+                            (0..=c).rev().find(|k| matches!(recs[*k].op, Op::Restart)).filter(|k| {
+                                (*k..=c).all(|m| recs[m].repos.get(rid).map(|s| s.private).unwrap_or(false))
+                            })
+                        });
+                        let class = if after_restart.is_some() {
+                            "inventory-lists-private-repo"
+                        } else if was_public.contains(rid) {
+                            "inventory-lists-repo-made-private"
+                        } else {
+                            "inventory-lists-private-repo"
+                        };
+                        let detail = match (c, after_restart) {
+                            (Some(c), Some(k)) => format!(" (created at op {c}; the repository was already private at the initialize of op {k})"),
+                            (Some(c), None) => format!(" (created at op {c})"),
+                            _ => String::new(),
+                        };
+                        viol.push((class.to_string(), format!("op {j}: inventory announcement {} of the node lists private repository {rid}{detail}", w.show())));
                     }
                 }
                 if !w.inv.is_empty() {
